@@ -119,11 +119,13 @@ def sortPairs (ps : List (Val × Val)) : List (Val × Val) := ps.foldl (fun acc 
 def showPairs (ps : List (Val × Val)) : String :=
   ",".intercalate ((sortPairs ps).map (fun p => showVal p.1 ++ ":" ++ showVal p.2))
 
-def dump : Obj → String
+/-- `mv`: the op just executed replaced the slot array of the Table (`Tab.moves`; false for a dump that follows no op) -/
+def dump (o : Obj) (mv : Bool := false) : String :=
+  match o with
   | .arr a => s!"A {a.ty.name} n={a.items.length} cap={a.nslots} [{showVals a.items}]"
   | .lst l => s!"L {l.ty.name} n={l.items.length} [{showVals l.items}]"
   | .tup t => s!"T {t.alloc.name} n={t.items.length} [{showVals t.items}]"
-  | .tab t => s!"H {t.kty.name} {t.vty.name} n={t.items.length} slots={t.nslots} " ++ "{" ++ showPairs t.items ++ "}"
+  | .tab t => s!"H {t.kty.name} {t.vty.name} n={t.items.length} slots={t.nslots} mv={if mv then 1 else 0} " ++ "{" ++ showPairs t.items ++ "}"
   | .tre t => s!"R {t.kty.name} {t.vty.name} n={t.items.length} " ++ "{" ++ showPairs t.items ++ "}"
   | .str s => s!"S {s.alloc.name} len={s.s.length} \"{String.ofList s.s}\""
   | .rng r => s!"G {r.start} {r.stop} {r.step} val={r.scratch}"
@@ -317,7 +319,9 @@ def poisons (o : Obj) (op : Op) (r : Res) : Bool :=
   | .tre _, .assign _ => true
   | .arr a, .push _ => a.ty = .str && !r.isOk
   | .arr a, .append _ => a.ty = .str && !r.isOk
-  | .arr a, .pushAt _ _ => a.ty = .str && !r.isOk
+  | .arr a, .pushAt _ k =>       -- refused at the element assignment (F15); a refused *position* has touched nothing
+    a.ty = .str && !r.isOk &&
+      (match cInt k with | .ok kb => inBoundsIncl a.items.length (normIdxPush a.items.length kb) | _ => false)
   | .arr _, .concat _ => !r.isOk
   | _, _ => false
 
@@ -437,10 +441,11 @@ def line (st : St) (l : String) : St × String :=
           if excluded o op then bad else
           let (σ', r) := step st.store id op
           let o' := (σ'.get? id).getD o
+          let mv := match o with | .tab t => t.moves op | _ => false
           let dies := poisons o op r
           ({ st with store := σ', nops := st.nops + 1, nraised := st.nraised + (match r with | .raised _ => 1 | _ => 0),
                      dead := if dies then id :: st.dead else st.dead },
-           "O " ++ showRes r ++ " | " ++ (if dies then "dead" else dump o'))
+           "O " ++ showRes r ++ " | " ++ (if dies then "dead" else dump o' mv))
   | _ => bad
 
 end FailDrv
